@@ -135,6 +135,16 @@ class GetNextObject(Contract):
     def inputs(self, S):
         return {"self": container(S), "tolerance": S.real("tolerance")}
 
+    @staticmethod
+    def model_to_input(model):
+        from pyvc import modelparse as mp
+        n = mp.num(model.get("n", "1")) or 0
+        if n > 90:
+            return None
+        return {"kind": "C06.next_object", "benefit": [mp.tofloat(v) for v in mp.seq(model, "benefit", n)],
+                "startNewObjects": mp.num(model.get("startNewObjects", "0")) or 0, "searchPosition": mp.num(model.get("searchPosition", "0")) or 0,
+                "tolerance": mp.tofloat(mp.num(model.get("tolerance", "0")) or 0)}
+
     def pre(self, S, env):
         return container_wf(env["self"])
 
